@@ -49,9 +49,24 @@ def owners(repo):
                 for attr, (f, _n) in conts[k.name].items():
                     # the filling method must be the one this class really resolves to
                     # (adapters override Output.push_data and never fill Output's history)
-                    if repo.resolve(c, f.name, "method") is f and (c, attr) not in res:
+                    if _reaches(repo, c, repo.resolve(c, f.name, "method"), f) and (c, attr) not in res:
                         res.append((c, attr))
     return conts, res
+
+
+def _reaches(repo, c, g, f, depth=0):
+    """Method g of concrete class c is f or calls it through self. / super(). calls."""
+    from ..lek import _callee_of
+    if g is None or depth > 3:
+        return False
+    if g is f:
+        return True
+    for n in fn_walk(g.node):
+        if isinstance(n, ast.Call):
+            _name, callee = _callee_of(repo, c, g, n)
+            if callee is not None and callee is not g and _reaches(repo, c, callee, f, depth + 1):
+                return True
+    return False
 
 
 def selector_summaries(repo):
